@@ -66,7 +66,7 @@ Definition accounted : list acct := [
   mkacct "ach.Batch.upsertOffsets" "b.Control.TotalDebitEntryDollarAmount" "search-only: optional sub-record dereferenced without a syntactically dominating nil test (constructor / reader invariants are not modelled)";
   mkacct "ach.Batch.upsertOffsets" "b.Control.EntryAddendaCount" "search-only: optional sub-record dereferenced without a syntactically dominating nil test (constructor / reader invariants are not modelled)";
   mkacct "ach.Batch.upsertOffsets" "b.Entries[:i]" "loop index: i < len(b.Entries) in the for condition";
-  mkacct "ach.Batch.upsertOffsets" "b.Entries[i+i:]" "UNGUARDED: known finding offset:upsert (i+i instead of i+1; repaired under C05)";
+  mkacct "ach.Batch.upsertOffsets" "b.Entries[i+1:]" "loop index: i < len(b.Entries) in the for condition, so i+1 <= len(b.Entries)";
   mkacct "ach.Batch.upsertOffsets" "b.Control.ServiceClassCode" "search-only: optional sub-record dereferenced without a syntactically dominating nil test (constructor / reader invariants are not modelled)";
   mkacct "ach.Batch.upsertOffsets" "b.Control.EntryHash" "search-only: optional sub-record dereferenced without a syntactically dominating nil test (constructor / reader invariants are not modelled)";
   mkacct "ach.createOffsetEntryDetail" "batch.offset.RoutingNumber" "search-only: optional sub-record dereferenced without a syntactically dominating nil test (constructor / reader invariants are not modelled)";
@@ -170,7 +170,6 @@ Definition accounted : list acct := [
   mkacct "ach.Flatten" "newFile.Control.TotalCreditEntryDollarAmountInFile" "search-only: optional sub-record dereferenced without a syntactically dominating nil test (constructor / reader invariants are not modelled)";
   mkacct "ach.canMerge" "traceNumbers[traceNumber]" "search-only: map lookup (never panics), not told apart from an index syntactically";
   mkacct "ach.mergeableBatcher.GetHeaderSignature" "b.batcher.GetHeader().String" "search-only: optional sub-record dereferenced without a syntactically dominating nil test (constructor / reader invariants are not modelled)";
-  mkacct "ach.mergeableBatcher.GetHeaderSignature" "b.batcher.GetHeader().String()[:87]" "reviewed: BatchHeader.String renders 94 columns (C02 layout)";
   mkacct "ach.mergeableBatcher.GetBatchNumber" "b.batcher.GetHeader().BatchNumber" "search-only: optional sub-record dereferenced without a syntactically dominating nil test (constructor / reader invariants are not modelled)";
   mkacct "ach.mergeableBatcher.GetTraceNumbers" "b.traceNumbers[entry.TraceNumber]" "search-only: map lookup (never panics), not told apart from an index syntactically";
   mkacct "ach.mergeableBatcher.Consume" "batcherToConsume.GetHeader().BatchNumber" "search-only: optional sub-record dereferenced without a syntactically dominating nil test (constructor / reader invariants are not modelled)";
@@ -178,7 +177,6 @@ Definition accounted : list acct := [
   mkacct "ach.mergeableBatcher.AddToFile" "m.batcher.GetEntries()[i]" "search-only: index variable bounded by a loop condition or an earlier check, not resolved by the translator";
   mkacct "ach.mergeableBatcher.AddToFile" "m.batcher.GetEntries()[j]" "search-only: index variable bounded by a loop condition or an earlier check, not resolved by the translator";
   mkacct "ach.mergeableBatcher.AddToFile" "m.batcher.GetHeader().BatchNumber" "search-only: optional sub-record dereferenced without a syntactically dominating nil test (constructor / reader invariants are not modelled)";
-  mkacct "ach.mergeableIATBatch.GetHeaderSignature" "b.iatBatch.Header.String()[:87]" "reviewed: IATBatchHeader.String renders 94 columns (C02 layout)";
   mkacct "ach.mergeableIATBatch.GetTraceNumbers" "b.traceNumbers[entry.TraceNumber]" "search-only: map lookup (never panics), not told apart from an index syntactically";
   mkacct "ach.mergeableIATBatch.AddToFile" "m.iatBatch.Entries[i]" "search-only: index variable bounded by a loop condition or an earlier check, not resolved by the translator";
   mkacct "ach.mergeableIATBatch.AddToFile" "m.iatBatch.Entries[j]" "search-only: index variable bounded by a loop condition or an earlier check, not resolved by the translator";
